@@ -856,6 +856,17 @@ func GenWorld(r *RNG, p Profile, pt *ParamTables) *World {
 	for i := range m.Water {
 		m.Water[i] = round(r.FRange(0.2, 1.0), 3)
 	}
+	if r.Bool(0.15) {
+		// absolute volumetric water contents (mode 3) of a dry to air-dry profile: far below the wilting point of most soils
+		m.Mode = 3
+		for i := range m.Water {
+			if r.Bool(0.5) {
+				m.Water[i] = round(r.FRange(0.005, 0.03), 3)
+			} else {
+				m.Water[i] = round(r.FRange(0.04, 0.12), 3)
+			}
+		}
+	}
 	if p.AllowPrognose && r.Bool(0.5) {
 		c.Prognose = start + Day(r.Range(30, int(end-start)-5))
 	}
